@@ -93,6 +93,23 @@ func zzCheck(s string) {
 	const dg = "sha256:0123456789abcdef0123456789abcdef0123456789abcdef0123456789abcdef"
 	d := r.SetDigest(dg)
 	zzAssert(d.Digest == dg && d.Tag == "" && d.Scheme == r.Scheme && d.Registry == r.Registry && d.Repository == r.Repository && d.Path == r.Path, "set_digest_changes_only_tag_and_digest")
+	zzAssert(d.Reference == d.CommonName(), "set_digest_rebuilds_reference")
+	// the same holds when the new value equals the old one, and on a reference that carries both
+	same := r.SetTag(r.Tag)
+	zzAssert(same.Tag == r.Tag && same.Digest == "" && same.Reference == same.CommonName(), "set_tag_to_the_same_tag_still_drops_the_digest")
+	both := r.SetTag("v1").AddDigest(dg)
+	zzAssert(both.Tag == "v1" && both.Digest == dg && both.Reference == both.CommonName(), "add_digest_keeps_the_tag")
+	bt := both.SetTag("v1")
+	zzAssert(bt.Tag == "v1" && bt.Digest == "" && bt.Reference == bt.CommonName() && bt.Repository == r.Repository && bt.Registry == r.Registry && bt.Path == r.Path, "set_tag_to_the_same_tag_still_drops_the_digest")
+	bd := both.SetDigest(dg)
+	zzAssert(bd.Tag == "" && bd.Digest == dg && bd.Reference == bd.CommonName(), "set_digest_to_the_same_digest_still_drops_the_tag")
+	// what the setters print parses back to what they hold
+	if r.Scheme == "reg" {
+		for _, x := range []Ref{t, d, both, bt} {
+			y, err := New(x.CommonName())
+			zzAssert(err == nil && y.Tag == x.Tag && y.Digest == x.Digest && y.Repository == x.Repository && y.Registry == x.Registry, "setter_result_round_trips")
+		}
+	}
 }
 
 // Arbitrary ASCII strings without scheme prefix, all lengths up to N.
